@@ -309,6 +309,10 @@ func stickyAnalyse(p *Prog, res *callResolver, pr stickyPair, passing map[sticky
 						case isErrorType(rt):
 							if cst, ok := r.(*ssa.Const); ok && cst.IsNil() {
 								problems = append(problems, fmt.Sprintf("a nil error is returned at %s", p.instrPos(in)))
+							} else if !ok && !errValueNonNil(r, errored) && !testedNonNil(r, b) {
+								// an error obtained from somewhere else (the writer's own error state, the result of a write):
+								// nil whenever that something else went fine, although the frame is a failed one
+								problems = append(problems, fmt.Sprintf("the error returned at %s (%s) does not stem from the incoming error and is not known to be non-nil there: the operation reports success for a failed frame whenever nothing else goes wrong", p.instrPos(in), describe(r)))
 							}
 						case fn.Name() == "Len":
 							if k, ok := constInt(r); !ok || k != -1 {
@@ -321,6 +325,27 @@ func stickyAnalyse(p *Prog, res *callResolver, pr stickyPair, passing map[sticky
 		}
 		return problems, fmt.Sprintf("%d of %d blocks feasible; no kernel, no callback, errored result", len(reach), len(fn.Blocks))
 	}
+}
+
+// testedNonNil: block b is entered only when v != nil.
+func testedNonNil(v ssa.Value, b *ssa.BasicBlock) bool {
+	for _, g := range dominatingGuards(b) {
+		cond, val := unNot(g.Cond, g.Val)
+		cmp, ok := cond.(*ssa.BinOp)
+		if !ok || cmp.X != v && cmp.Y != v && !isSpilledCopyOf(cmp.X, v) && !isSpilledCopyOf(cmp.Y, v) {
+			continue
+		}
+		other := cmp.Y
+		if cmp.Y == v {
+			other = cmp.X
+		}
+		if cst, ok := other.(*ssa.Const); ok && cst.IsNil() {
+			if cmp.Op == token.NEQ && val || cmp.Op == token.EQL && !val {
+				return true
+			}
+		}
+	}
+	return false
 }
 
 // isOptionCallback: a configuration option (func(*Config)) rather than a row callback.
